@@ -133,7 +133,7 @@ fn drain_all(consumer: &mut owning_iovec::ConsumingIovec<'_>, api: DrainApi, sin
             }
             let got = consumer.consume(lens.len());
             if got != lens.len() {
-                return Err(format!("consume({}) returned {}", lens.len(), got));
+                return Err(format!("[prefix] consume({}) returned {}", lens.len(), got));
             }
         }
         DrainApi::AdvanceTotal => {
@@ -142,20 +142,20 @@ fn drain_all(consumer: &mut owning_iovec::ConsumingIovec<'_>, api: DrainApi, sin
             }
             let got = consumer.advance_slices(stable);
             if got != stable {
-                return Err(format!("advance_slices({}) returned {}", stable, got));
+                return Err(format!("[prefix] advance_slices({}) returned {}", stable, got));
             }
         }
         DrainApi::ReadSink => {
             sink.resize(stable + 8, 0);
             let got = consumer.read(sink).map_err(|e| e.to_string())?;
             if got != stable {
-                return Err(format!("read returned {} with {} stable bytes", got, stable));
+                return Err(format!("[prefix] read returned {} with {} stable bytes", got, stable));
             }
             sink.truncate(got);
         }
     }
     if !consumer.stable_prefix().is_empty() {
-        return Err("stable prefix not empty after draining all of it".into());
+        return Err("[prefix] stable prefix not empty after draining all of it".into());
     }
     Ok(())
 }
@@ -191,7 +191,7 @@ fn run_config_inner(cfg: &Config) -> Result<RunStats, String> {
     let check_decoded = |bytes: &[u8], decoded_pos: &mut usize| -> Result<(), String> {
         for b in bytes {
             if *b != shape_byte(cfg.shape, *decoded_pos) {
-                return Err(format!("decoded stream differs from the input at offset {}: {:#04x} expected {:#04x}", decoded_pos, b, shape_byte(cfg.shape, *decoded_pos)));
+                return Err(format!("[roundtrip] decoded stream differs from the input at offset {}: {:#04x} expected {:#04x}", decoded_pos, b, shape_byte(cfg.shape, *decoded_pos)));
             }
             *decoded_pos += 1;
         }
@@ -221,7 +221,7 @@ fn run_config_inner(cfg: &Config) -> Result<RunStats, String> {
         stats.peak_by_third[third] = stats.peak_by_third[third].max(live);
         stats.chunks_by_third[third] = stats.chunks_by_third[third].max(ByteArena::num_live_chunks() - live0.0);
         if live > bound {
-            return Err(format!("footprint: {} live arena bytes after call {} ({} bytes streamed), bound {} = {} x max(1 MiB, largest call)", live, step, pos, bound, bound / unit));
+            return Err(format!("[footprint] {} live arena bytes after call {} ({} bytes streamed), bound {} = {} x max(1 MiB, largest call)", live, step, pos, bound, bound / unit));
         }
         {
             let mut consumer = enc.consumer();
@@ -230,35 +230,35 @@ fn run_config_inner(cfg: &Config) -> Result<RunStats, String> {
             stats.peak_lag = stats.peak_lag.max(lag);
             let c = owning_iovec::verif::max_chunk_size_seen();
             if lag > c + 64008 + 2 {
-                return Err(format!("encoder lag: {} bytes produced but not consumable after call {} (largest arena chunk so far {}, bound = chunk + 64008 + 2)", lag, step, c));
+                return Err(format!("[prefix] encoder lag: {} bytes produced but not consumable after call {} (largest arena chunk so far {}, bound = chunk + 64008 + 2)", lag, step, c));
             }
             drain_all(&mut consumer, cfg.drain, &mut sink)?;
         }
         // stuff-freedom across drains
         if let (Some(last), Some(first)) = (last_out_byte, sink.first()) {
             if last == 0xFE && *first == 0xFD {
-                return Err(format!("output contains FE FD across two drains (after {} input bytes)", pos));
+                return Err(format!("[shape] output contains FE FD across two drains (after {} input bytes)", pos));
             }
         }
         if mc_core::refcodec::contains_stuff(&sink) {
-            return Err(format!("output contains FE FD (after {} input bytes)", pos));
+            return Err(format!("[shape] output contains FE FD (after {} input bytes)", pos));
         }
         if let Some(l) = sink.last() {
             last_out_byte = Some(*l);
         }
         if let Some(dec) = dec.as_mut() {
-            dec.decode_copy(&sink).map_err(|e| format!("decoder rejected the encoder's output after {} input bytes: {}", pos, e))?;
+            dec.decode_copy(&sink).map_err(|e| format!("[roundtrip] decoder rejected the encoder's output after {} input bytes: {}", pos, e))?;
             let mut consumer = dec.consumer();
             let stable: usize = consumer.stable_prefix().iter().map(|s| s.len()).sum();
             if stable != consumer.total_size() {
-                return Err(format!("decoder lag: {} of {} bytes consumable", stable, consumer.total_size()));
+                return Err(format!("[prefix] decoder lag: {} of {} bytes consumable", stable, consumer.total_size()));
             }
             drain_all(&mut consumer, cfg.drain, &mut dsink)?;
             check_decoded(&dsink, &mut decoded_pos)?;
             let live = ByteArena::num_live_bytes() - live0.1;
             stats.peak_live_bytes = stats.peak_live_bytes.max(live);
             if live > bound {
-                return Err(format!("footprint (chained): {} live arena bytes after call {}, bound {}", live, step, bound));
+                return Err(format!("[footprint] (chained) {} live arena bytes after call {}, bound {}", live, step, bound));
             }
         }
     }
@@ -270,35 +270,35 @@ fn run_config_inner(cfg: &Config) -> Result<RunStats, String> {
     // to 1 MiB over the first turn-overs, which can take the whole stream when little is copied.
     // Bytes are bounded absolutely above; growth is detected on the chunk count, which does not ramp.)
     if stats.chunks_by_third[2] > stats.chunks_by_third[0] + 2 {
-        return Err(format!("footprint grows with the stream: peak live chunks per third of the stream {:?}", stats.chunks_by_third));
+        return Err(format!("[footprint] grows with the stream: peak live chunks per third of the stream {:?}", stats.chunks_by_third));
     }
     if stats.peak_chunks > 16 {
-        return Err(format!("{} live arena chunks at once", stats.peak_chunks));
+        return Err(format!("[footprint] {} live arena chunks at once", stats.peak_chunks));
     }
     // finish: the rest of the output
     let out = enc.finish();
     let rest = out.flatten().map_err(|_| "finish left a placeholder pending".to_string())?;
     if let (Some(last), Some(first)) = (last_out_byte, rest.first()) {
         if last == 0xFE && *first == 0xFD {
-            return Err("output contains FE FD across the early/late split".into());
+            return Err("[shape] output contains FE FD across the early/late split".into());
         }
     }
     if mc_core::refcodec::contains_stuff(&rest) {
-        return Err("finish() output contains FE FD".into());
+        return Err("[shape] finish() output contains FE FD".into());
     }
     if let Some(mut dec) = dec.take() {
-        dec.decode_copy(&rest).map_err(|e| format!("decoder rejected the tail: {}", e))?;
-        let fin = dec.finish().map_err(|e| format!("decoder finish failed: {}", e))?;
+        dec.decode_copy(&rest).map_err(|e| format!("[roundtrip] decoder rejected the tail: {}", e))?;
+        let fin = dec.finish().map_err(|e| format!("[roundtrip] decoder finish failed: {}", e))?;
         let tail = fin.flatten().map_err(|_| "decoder output pending".to_string())?;
         check_decoded(&tail, &mut decoded_pos)?;
         if decoded_pos != pos {
-            return Err(format!("decoded {} bytes of {} streamed", decoded_pos, pos));
+            return Err(format!("[roundtrip] decoded {} bytes of {} streamed", decoded_pos, pos));
         }
     }
     drop(out);
     let live1 = (ByteArena::num_live_chunks(), ByteArena::num_live_bytes());
     if live1 != live0 {
-        return Err(format!("arena leak after drop: live (chunks, bytes) {:?} -> {:?}", live0, live1));
+        return Err(format!("[leak] arena leak after drop: live (chunks, bytes) {:?} -> {:?}", live0, live1));
     }
     Ok(stats)
 }
@@ -366,6 +366,9 @@ pub fn run(ctx: &Ctx, rep: &mut Report, unit: &mut usize) {
                                 if rep.want_sample() {
                                     rep.sample(format!("{} => {} calls, {} MiB, peak live {} bytes ({:.2} units), peak lag {}, thirds {:?}", cfg.render(), stats.calls, stats.streamed >> 20, stats.peak_live_bytes, stats.peak_live_bytes as f64 / stats.unit as f64, stats.peak_lag, stats.peak_by_third));
                                 }
+                            }
+                            Err(e) if !relevant(&e) => {
+                                rep.count("cases_failing_only_a_sibling_oracle", 1);
                             }
                             Err(e) => {
                                 let again = run_config(&cfg).is_err();
